@@ -181,6 +181,7 @@ theorem control_frames_acked (cfg : Cfg) (hd : DistinctIds cfg) (s : State) (u :
 /-- **The Spec's acknowledgement clauses hold on every run of the model** (and with them the whole of property C19 as
 the Spec decides it, the crash clause being void for a run that does not crash — `model_never_crashes`).  For every
 configuration meeting the side conditions (`CfgOK`: instantiated at the constants of the source tree; automatic fuel;
+CLIENT_CLOSED is not the ALL_MESSAGE_TYPES sentinel;
 `OrdPerm`: a Python `set` is iterated in some order, every element once — the driver uses insertion order and its
 reverse) and every history whose frames are read from connections (never from the manager's own table entry, uid 0 —
 every generated history is such), the verdict `Spec.runSpec` computes from the history and the model's own events has no
